@@ -107,7 +107,7 @@ func randRes(r *rand.Rand, who int, p float64, update bool) abs.SMap {
 	return m
 }
 
-func randOrig(r *rand.Rand) abs.Container {
+func RandOrig(r *rand.Rand) abs.Container {
 	c := abs.Container{}.Norm()
 	for _, fam := range []string{"ann", "env", "mnt", "dev"} {
 		for _, k := range genKeys[fam] {
@@ -173,7 +173,7 @@ func randList(r *rand.Rand, fam string, who int, pTouch float64) abs.KVs {
 	return out
 }
 
-func randAdjust(r *rand.Rand, who int, density float64) abs.Adjust {
+func RandAdjust(r *rand.Rand, who int, density float64) abs.Adjust {
 	a := abs.Adjust{}.Norm()
 	for _, k := range genKeys["ann"] {
 		if r.Float64() < density {
@@ -302,7 +302,7 @@ func Generate(o GenOptions) error {
 		default:
 			s.Kind = "stop"
 		}
-		s.Orig = randOrig(r)
+		s.Orig = RandOrig(r)
 		s.ReqRes = abs.ResView{}.Norm()
 		if s.Kind == "update" {
 			switch r.Intn(3) {
@@ -322,7 +322,7 @@ func Generate(o GenOptions) error {
 		for p := 0; p < np; p++ {
 			resp := abs.Resp{}
 			if s.Kind == "create" {
-				resp.Adj = randAdjust(r, p+1, density)
+				resp.Adj = RandAdjust(r, p+1, density)
 			}
 			if s.Kind != "create" || r.Intn(3) == 0 {
 				resp.Upd = randUpdates(r, p+1, "c0")
